@@ -14,8 +14,10 @@
 (*   disjoint    TRUE + expected: the generator guarantees disjoint edits  *)
 (*   flag        TRUE + variants <<l, r>>: both sides rewrote the same line*)
 (*   allside     TRUE when all-local / all-remote clauses apply            *)
-(*   tool        [D] decisions of the same triple with conflicts left open *)
-(*   side        "base" | "local" | "remote" for use-* runs                *)
+(*   toolD / toolDnoT  decisions of the same triple with conflicts left    *)
+(*               open (strategy mergetool; transients ignored / not)       *)
+(*   side        "base" | "local" | "remote" for use-* runs, with toolkey  *)
+(*               naming which of the two open-conflict lists applies       *)
 (*   lines       TRUE when the line clauses (C07/C10) apply                *)
 (*   tsm         merged document computed by the TypeScript applier (C15)  *)
 (*   after       <<base, local, remote>> re-encoded after the call (C13)   *)
@@ -67,8 +69,8 @@ Clauses(ev, run) ==
           /\ \A k \in 1..Len(ev.variants) : StripEnd(ev.variants[k]) \in SourceLines(m)>>,
     <<"UseSideNoConflict", Has(run, "side") => ~conf>>,
     <<"UseSideEquivalence",
-        (Has(run, "side") /\ Has(ev, "toolD")) =>
-          LET r == ApplyDecisions(b, ResolveAll(ev.toolD, run.side)) IN r.ok /\ Eq(r.v, m)>>,
+        (Has(run, "side") /\ Has(run, "toolkey") /\ Has(ev, run.toolkey)) =>
+          LET r == ApplyDecisions(b, ResolveAll(ev[run.toolkey], run.side)) IN r.ok /\ Eq(r.v, m)>>,
     <<"TsApplied", Has(run, "tsm") => Eq(run.tsm, m)>>,
     <<"TsAccepts", ~Has(run, "tsraised")>>,
     <<"ArgsUnchanged",
